@@ -276,3 +276,117 @@ LEMMAS = {
                doc='A64 decoder cross-check: every instruction of the assembled runtime inside the modelled subset reads the same in the model and in llvm-objdump; the prologue loads x0/x11/x21-x30 and v0-v15 from the literal slots the emitter fills',
                bound='the whole assembled runtime', symbolic='literal pool content', stubs=[]),
 }
+
+# ------------------------------------------------------------------------------------------------ N5: the generated dataset-item function
+def run_N5(ctx, case):
+    """the real generateSuperscalarHash stitches rx_calc_dataset_item from the runtime's templates and the code it emits for a program list;
+    the function, executed under the A64 model for a symbolic cache and item number, computes the item of specification 7.3"""
+    from lemmas.sshash import kind_numbers, spec_ss, KINDS
+    from lemmas import life
+    from engine import cxxlib
+    q = Q(120); mod = Module(ctx['ll']['a64']); L = jit_layout(mod); syms, text = ctx['a64']['syms'], ctx['a64']['text']; KN = kind_numbers(); npaths = [0]; variant = case['variant']
+    NP = P.CACHE_ACCESSES; CODESZ = syms['randomx_init_dataset_aarch64_end'] - syms['randomx_program_aarch64']
+    plans = []; single = case.get('single')
+    for k in range(NP):
+        if single: ks = [single[0]] if k == single[3] else []
+        else: ks = [KINDS[(variant * 5 + 3 * k + j) % len(KINDS)] for j in range(case['len'])]
+        ins = []
+        for j, kd in enumerate(ks):
+            d = (k + 2 * j + variant) % 8; s_ = (d + 1 + j) % 8
+            if single: d, s_ = single[1], single[2]
+            if kd == 'IADD_RS' and d == 5: d = 6; s_ = 7
+            if s_ == d: s_ = (d + 1) % 8
+            ins.append((kd, d, s_))
+        plans.append((ins, (3 * k + variant) % 8))
+    # immediates: in the stitched variants every IADD_C/IXOR_C immediate is confined to one materialisation class (the classes are all covered, with unconstrained immediates, by the single-instruction jobs)
+    CLASSES = [lambda x: z3.ULT(x, 1 << 12), lambda x: z3.And(z3.UGE(x, 1 << 12), z3.ULT(x, 1 << 24), x & 0xfff != 0), lambda x: z3.And(z3.UGE(x, 1 << 24), x < 0x80000000 if False else z3.ULT(x, 1 << 31)), lambda x: z3.UGE(x, 1 << 31)]
+    item = z3.BitVec('itemNumber', 64); tag = 'calc_dataset_item (A64) %s' % (('single %s r%d,r%d in program %d' % tuple(single)) if single else 'variant %d' % variant)
+    def one(fk):
+        it = Interp(mod); it.fork = fk; H = life.Heap(it, fail=False); cxxlib.install(it, H)
+        it.mem.alloc(len(text) + 64, 'text')
+        for k, b in enumerate(text): it.mem.objs['text']['bytes'][k] = b
+        it.extern = {nm: Ptr('text', off) for nm, off in syms.items()}
+        for nm, v in (('_ZN7randomxL8CodeSizeE', CODESZ),): it.mem.store(Ptr(it.glob(nm).obj, 0), v, 8)
+        J = it.mem.alloc(L['size'], 'J'); CB = CODESZ + (1 << 16); code = it.mem.alloc(CB, 'code')
+        for k, b in enumerate(text[:CODESZ]): it.mem.objs['code']['bytes'][k] = b
+        it.mem.store(Ptr('J', L['code']), code, 8); it.mem.store(Ptr('J', L['literalPos']), 0, 4); it.mem.store(Ptr('J', L['nlit']), 0, 4); it.mem.store(Ptr('J', L['flags']), 0, 4)
+        tp = resolve(NamedT('class.randomx::SuperscalarProgram', mod)); po = tp.layout()[0]
+        progs = it.mem.alloc(NP * tp.size(), 'programs'); imms = {}; rcps = []
+        for k, (ins, ar) in enumerate(plans):
+            base = k * tp.size(); it.mem.store(Ptr('programs', base + po[1]), len(ins), 4); it.mem.store(Ptr('programs', base + po[2]), ar, 4)
+            for j, (kd, d, s_) in enumerate(ins):
+                imm = z3.BitVec('imm_%d_%d' % (k, j), 32); mo = z3.BitVec('mod_%d_%d' % (k, j), 8) if single else z3.BitVecVal(((variant + k + j) % 4) << 2, 8); imms[(k, j)] = (imm, mo)
+                if kd == 'IMUL_RCP': rcps.append(z3.BitVec('rcp_%d_%d' % (k, j), 64)); immv = len(rcps) - 1
+                else: immv = imm
+                if kd == 'IROR_C': fk['pc'] += [z3.UGE(imm, 1), z3.ULE(imm, 63)]
+                if not single and (kd.startswith('IADD_C') or kd.startswith('IXOR_C')): fk['pc'].append(CLASSES[(variant + k + j) % 4](imm))
+                for b_, v in enumerate((KN[kd], d, s_, mo)): it.mem.store(Ptr('programs', base + 8 * j + b_), v, 1)
+                it.mem.store(Ptr('programs', base + 8 * j + 4), immv, 4)
+        it.mem.alloc(24, 'rcpvec'); it.mem.alloc(8 * max(1, len(rcps)), 'rcpbuf')
+        for n_, v in enumerate(rcps): it.mem.store(Ptr('rcpbuf', 8 * n_), v, 8)
+        it.mem.store(Ptr('rcpvec', 0), Ptr('rcpbuf', 0), 8); it.mem.store(Ptr('rcpvec', 8), Ptr('rcpbuf', 8 * len(rcps)), 8); it.mem.store(Ptr('rcpvec', 16), Ptr('rcpbuf', 8 * len(rcps)), 8)
+        it.call('_ZN7randomx14JitCompilerA6423generateSuperscalarHashERSt5arrayINS_18SuperscalarProgramELm8EERSt6vectorImSaImEE', [J, progs, Ptr('rcpvec', 0)])
+        # ---- machine: rx_calc_dataset_item(x0 = cache memory, x1 = out, x2 = item number) as randomx_init_dataset_aarch64 calls it (bl to offset CODESZ)
+        mem = it.mem; CACHE = P.ARGON_MEMORY * 1024
+        mem.mkarr('cachemem', CACHE); mem.share('cachemem'); loads = []
+        def cache_load(off, nbytes):
+            v = z3.BitVec('cacheword%d' % len(loads), 8 * nbytes); loads.append((bv(off, 64), nbytes, v)); return v
+        mem.symload['cachemem'] = cache_load
+        mem.watch['cachemem'] = lambda p_, n_: (_ for _ in ()).throw(Fault('the dataset-item function writes to the cache'))
+        mem.alloc(64, 'out'); STK = 256; mem.alloc(STK + 16, 'stack')
+        for k in range(0, STK + 16, 8): mem.store(Ptr('stack', k), z3.BitVec('stk%d' % k, 64), 8)
+        m = Machine(mem, 'code', it)
+        entry = {r: z3.BitVec('x%d_entry' % r, 64) for r in range(31)}
+        for r in range(31): m.x[r] = entry[r]
+        m.x[0] = Ptr('cachemem', 0); m.x[1] = Ptr('out', 0); m.x[2] = item; m.x[30] = Ptr('caller', 0); m.sp = Ptr('stack', STK); m.fpcr = z3.BitVec('fpcr', 64)
+        def chk(c, what):
+            q.n += 1; q.unsat += bool(c); q.sat += (not c)
+            if not c: q.failed.append(('%s: %s' % (tag, what), {}))
+        try: r = m.run(CODESZ, max_steps=3000)
+        except (Fault, OOB) as e:
+            chk(False, 'generated function does not execute: %s' % e); return
+        npaths[0] += 1; pc = fk['pc']
+        chk(r[0] == 'ret' and isinstance(r[1], Ptr) and r[1].obj == 'caller', 'returns to the caller')
+        consts = [6364136223846793005, 9298411001130361340, 12065312585734608966, 9306329213124626780, 5281919268842080866, 10536153434571861004, 3398623926847679864, 9549104520008361294]
+        B = lambda v: z3.BitVecVal(v, 64)
+        rr = [(item + 1) * B(consts[0])]; rr += [rr[0] ^ B(c) for c in consts[1:]]; ci = item; ri = 0
+        for k, (ins, ar) in enumerate(plans):
+            off = (ci & (CACHE // 64 - 1)) * 64
+            for j, (kd, d, s_) in enumerate(ins):
+                imm, mo = imms[(k, j)]
+                if kd == 'IMUL_RCP': rv = rcps[ri]; ri += 1
+                else: rv = None
+                rr = list(rr); rr[d] = spec_ss(kd, rr, d, s_, imm, mo, rv)
+            mine = loads[8 * k:8 * k + 8]
+            okl = len(mine) == 8 and all(nb_ == 8 for (_, nb_, _) in mine); q.n += 1; q.unsat += okl; q.sat += (not okl)
+            if not okl: q.failed.append(('%s: program %d: does not read 8 words of one cache line' % (tag, k), {})); return
+            for w, (aoff, nb_, sym) in enumerate(mine): q.prove_eq(pc, aoff, off + 8 * w, '%s: program %d: cache word %d read at 64*(cacheIndex mod lines)+%d' % (tag, k, w, 8 * w), 64)
+            rr = [rr[w] ^ mine[w][2] for w in range(8)]; ci = rr[ar]
+        for w in range(8): q.prove_eq(pc, mem.load(Ptr('out', 8 * w), 8), rr[w], '%s: output word %d == spec 7.3' % (tag, w), 64)
+        chk(len(loads) == 8 * NP, 'exactly %d cache words read' % (8 * NP))
+        for r_ in range(31):
+            if r_ in (0, 1, 2, 30, 20): continue      # x20 is the emitters' scratch register: randomx_init_dataset_aarch64 saves it around the call, the light-mode loop redefines it after the call
+            v1 = m.x[r_]; same = (not isinstance(v1, Ptr)) and (not is_c(v1)) and v1.eq(entry[r_])
+            if not same and r_ <= 13: q.prove_eq(pc, v1, entry[r_], '%s: x%d restored' % (tag, r_), 64)
+            elif not same: chk(False, 'x%d changed' % r_)
+        chk(isinstance(m.sp, Ptr) and m.sp.obj == 'stack' and m.sp.off == STK, 'stack pointer restored')
+        for (kd, obj, off_, nb) in m.accesses:
+            if obj == 'stack': chk(is_c(off_) and STK - 112 <= off_ and off_ + nb <= STK, 'stack access inside the 112-byte frame (%s)' % off_)
+            elif obj not in ('code', 'cachemem', 'out'): chk(False, 'access to object %s' % obj)
+            elif obj == 'code' and kd == 'store': chk(False, 'store into the code buffer')
+        extent_checks(q, pc, mem, tag)
+    res, nq = explore(one, limit=64); q.n += nq
+    return result('N5', tag, q, paths=npaths[0], detail='%d paths; programs %s' % (npaths[0], [[i_[0] for i_ in p_[0]] for p_ in plans][:3]))
+
+def jobs_N5(ctx):
+    from lemmas.sshash import KINDS
+    J = [dict(variant=v, len=(2 if ctx['tier'] == 'quick' else 4)) for v in (range(4) if ctx['tier'] == 'quick' else range(16))]
+    for n_, kd in enumerate(KINDS):
+        for (d, s_, pk) in (((n_ % 8, (n_ + 3) % 8, n_ % 8),) if ctx['tier'] == 'quick' else tuple((d, (d + 1 + n_) % 8, (d + n_) % 8) for d in range(8))):
+            J.append(dict(variant=0, len=1, single=(kd, d, s_, pk)))
+    return J
+LEMMAS['N5'] = dict(jobs=jobs_N5, run=run_N5, units=['a64'], a64=True,
+    functions=['JitCompilerA64::generateSuperscalarHash', 'emitAddImmediate', 'emitMovImmediate', 'assembled templates: randomx_calc_dataset_item_aarch64 (prologue, prefetch, mix, store_result)'],
+    doc='the dataset-item function the ARM64 back-end generates (templates of the runtime + code emitted for a SuperscalarHash program list + literal pools), executed under the A64 model for a symbolic cache and item number == specification 7.3 with the instruction semantics of 6.1; reads exactly one cache line per program at 64*(cacheIndex mod lines), writes the 64 output bytes, restores registers (x20 is scratch) and sp',
+    bound='(a) program lists of 8 programs x 2 (quick) / 4 instructions drawn from all 14 kinds (4 / 16 variants), reciprocals and immediates symbolic (IADD_C/IXOR_C immediates inside one of four materialisation classes, IADD_RS shift fixed per position); (b) every kind alone in one program with an unconstrained immediate (1 / 8 register choices); any cache content and item number', symbolic='cache (cut points), item number, immediates, reciprocals, entry registers, stack content',
+    stubs=['cache words := fresh symbols at recorded addresses', 'A64 semantics: engine/a64sem.py'], outside='randomx_init_dataset_aarch64 loop (3 instructions around the call)')
